@@ -374,13 +374,21 @@ fn is_useful_wildcard(
                     }
                     witness_report = wr;
                 }
-                (_, wr) => {
+                (WitnessReport::Witnesses(remaining_witnesses), wr) => {
                     let (pat, wr) =
                         WitnessReport::split_into_leading_constructor(handler, wr, c_k, span)?;
-                    if !pat_stack.contains(&pat) {
+                    // The witnesses found for different constructors are witnesses for the
+                    // same remaining columns only if they agree on those columns. Only in that
+                    // case can they be reported together, as alternatives of the first column.
+                    // Otherwise, we keep the witnesses that were found first.
+                    let same_remaining_witnesses = matches!(
+                        &wr,
+                        WitnessReport::Witnesses(new_remaining_witnesses)
+                            if new_remaining_witnesses == remaining_witnesses
+                    );
+                    if same_remaining_witnesses && !pat_stack.contains(&pat) {
                         pat_stack.push(pat);
                     }
-                    witness_report = WitnessReport::join_witness_reports(witness_report, wr);
                 }
             }
         }
